@@ -1,5 +1,5 @@
 # properties whose check is finished, reviewed by the lead and quiet on the current tree
-READY = ["C01","C02","C03","C04","C05","C06","C07","C08","C09","C10","C11","C12","C13","C14","C15","C16","C17","C19","C20"]
+READY = ["C01","C02","C03","C04","C05","C06","C07","C08","C09","C10","C11","C12","C13","C14","C15","C16","C17","C18","C19","C20"]
 NOT_APPLICABLE = {}
 NOTES = ("Every check is `python -m vp.runner <ID>`: fixed regression cases, then generated search per sub-check "
          "(Hypothesis, seeded from VERIF_SEED, PYTHONHASHSEED pinned to 0) and exhaustive enumeration where the "
